@@ -30,16 +30,21 @@ CS = 'character_sets::'
 PUSH = CS + 'CharPartition::push'
 
 
-def run(ctx):
+SUBTASKS = ['dev', 'rel', 'list']   # run in parallel workers by main.run_property
+
+
+def run(ctx, sub=None):
     MAX = ctx.crate('dev').const_value('smt_strings::MAX_CHAR')
     if MAX is None:
         raise X.Unanalysable('const MAX_CHAR not found')
     ctx.assumptions.add('CharPartition invariant for both arguments (sorted, disjoint, well formed); CharPartition::get returns the sentinel (MAX+1, MAX+1) beyond the last interval (checked by C11.R3)')
-    guarded(ctx, 'C12.R1', 'C12.R1/merge_partitions', r1_merge, MAX)
-    guarded(ctx, 'C12.R2', 'C12.R2/merge_partition_list', r2_list)
+    if sub in (None, 'dev', 'rel'):
+        guarded(ctx, 'C12.R1', 'C12.R1/merge_partitions', r1_merge, MAX, ('dev', 'rel') if sub is None else (sub,))
+    if sub in (None, 'list'):
+        guarded(ctx, 'C12.R2', 'C12.R2/merge_partition_list', r2_list)
 
 
-def r1_merge(ctx, MAX):
+def r1_merge(ctx, MAX, cfgs=('dev', 'rel')):
     p1, p2 = A(0), A(1)
     LIST1, L1, S1, E1 = model(p1)
     LIST2, L2, S2, E2 = model(p2)
@@ -75,7 +80,7 @@ def r1_merge(ctx, MAX):
             hy += partition_hyps_imp(L, S, E, MAX, idxs)
         return hy
 
-    for cfg in ('dev', 'rel'):
+    for cfg in cfgs:
         cr = ctx.crate(cfg)
         fn = cr.fn(CS + 'merge_partitions')
         if fn is None:
@@ -243,6 +248,19 @@ def branch_name(ip, st, a, b, c, d):
     return 'other'
 
 
+def exhausted(ip, st):
+    """the loop position of the (single) iteration has reached the length of the iterated sequence on this path"""
+    pos = []
+    lens = []
+    for f in st.pc:
+        for t in T.subterms(f):
+            if t[0] == 'var' and 'iter.pos@' in t[1] and t not in pos:
+                pos.append(t)
+            if t[0] == 'len' and t not in lens:
+                lens.append(t)
+    return len(pos) == 1 and any(ip.entails(st, le(T.typed(n, 'usize'), pos[0])) for n in lens)
+
+
 def r2_list(ctx):
     """merge_partition_list: result starts as the empty partition and each step is result := merge_partitions(&result, p)
     for the next p of the iterator; the final result is returned."""
@@ -286,5 +304,9 @@ def r2_list(ctx):
                         good = acc[1] in list(T.subterms(t)) or t == acc[1]
                         ctx.obligation(good)
                         (ctx.ok if good else ctx.violation)('C12.R2', 'C12.R2/%s/returns-accumulator' % label, fnpath, fn.site(), {'returned': T.show(t)[:200]}, cfg)
+                        # the fold ends only when the iterator is exhausted: no early exit may skip a partition
+                        good = exhausted(ip, o.state)
+                        ctx.obligation(good)
+                        (ctx.ok if good else ctx.violation)('C12.R2', 'C12.R2/%s/every-partition-is-merged:exit-only-at-exhaustion' % label, fnpath, fn.site(), {'leaf_constraints': pc_text(o)}, cfg)
             ctx.obligation(ok)
             (ctx.ok if ok else ctx.violation)('C12.R2', 'C12.R2/%s/fold-shape' % label, fnpath, fn.site(), {'heads': len(heads), 'back_edges': len(backs)}, cfg)
